@@ -128,6 +128,7 @@ func (p *Parser) Parse(buf []byte, args ...any) (any, error) {
 		p.starts = p.starts[:0]
 	}
 	p.result = nil
+	p.plus = false
 	p.noff = -1
 	p.line = 1
 	p.mode = valueMap
@@ -196,6 +197,7 @@ func (p *Parser) ParseReader(r io.Reader, args ...any) (data any, err error) {
 		p.starts = p.starts[:0]
 	}
 	p.result = nil
+	p.plus = false
 	p.noff = -1
 	p.line = 1
 	p.mi = 0
@@ -526,6 +528,18 @@ func (p *Parser) parseBuffer(buf []byte, last bool) (err error) {
 			}
 			off += i
 		case valPlus:
+			// A '+' joins the string that follows to the preceding string
+			// value, there must be one.
+			var prev any
+			if 0 < len(p.stack) {
+				prev = p.stack[len(p.stack)-1]
+				if obj, ok := prev.(map[string]any); ok && 0 < len(p.starts) && p.starts[len(p.starts)-1] == -1 {
+					prev = obj[string(p.lastKey)]
+				}
+			}
+			if _, ok := prev.(string); !ok {
+				return p.newError(off, "a '+' must follow a string")
+			}
 			p.mode = plusMap
 			// Store additional state (plus) to be used later in addString()
 			// instead of creating another set of modes for this semi-rare
